@@ -144,6 +144,7 @@ def run(ctx):
         ctx.violation(k, f"reader on\n{text}chains={chains}: expected {exp}, got {got}", {"pdb": text, "chains": chains})
     rng = random.Random(ctx.seed)
     rels = []
+    kept_sets = []
     for name, text in structures(ctx):
         base = runner.run(text, ["-q"])
         ctx.count()
@@ -186,6 +187,44 @@ def run(ctx):
                     ctx.nontriv((name, "keep-protons"))
                     rels.append(relations.relate("SameAll", base, text, rk, htext, textcmp=True,
                                                  meta={"input": name, "edit": "own hydrogens + -k", "pdb": htext, "orig": text}))
+                    from . import c17
+                    conf_k = rk.mol.conformations[rk.mol.conformation_names[0]]
+                    nsup = sum(1 for ln in htext.splitlines() if C.is_atom(ln) and ln[76:78].strip() == "H")
+                    kept_sets.append((c17.hydrogen_set([a for a in conf_k.atoms if a.element == "H"], nsup),
+                                      {"input": name, "pdb": htext}))
+    # one larger amino-acid structure for the keep-protons clause only (its own hydrogens come close to each other)
+    from . import c04 as _c04
+    for name, text in [("1HPX-protein", _c04.protein_only(C.test_pdb_text("1HPX")))]:
+        base = runner.run(text, ["-q"])
+        htext = with_own_hydrogens(text)
+        if base.exc is None and htext:
+            rk = runner.run(htext, ["-q", "-k"])
+            ctx.count()
+            if rk.exc is not None:
+                ctx.violation(f"keep-protons:exception:{name}", repr(rk.exc), {"pdb": htext, "optargs": ["-k"]})
+            else:
+                ctx.nontriv((name, "keep-protons"))
+                rels.append(relations.relate("SameAll", base, text, rk, htext, textcmp=True,
+                                             meta={"input": name, "edit": "own hydrogens + -k", "pdb": htext, "orig": text}))
+                from . import c17
+                conf_k = rk.mol.conformations[rk.mol.conformation_names[0]]
+                nsup = sum(1 for ln in htext.splitlines() if C.is_atom(ln) and ln[76:78].strip() == "H")
+                kept_sets.append((c17.hydrogen_set([a for a in conf_k.atoms if a.element == "H"], nsup), {"input": name, "pdb": htext}))
+    # kept hydrogens stay what they were: one heavy parent each, no bond between two hydrogens, none added on top
+    if kept_sets:
+        import os as _os
+        from .. import tlc as _tlc
+        wd_ = _tlc.workdir("c07h")
+        tf_ = _os.path.join(wd_, "kept.json")
+        json.dump([k_[0] for k_ in kept_sets], open(tf_, "w"))
+        res_, hv = _tlc.trace_check("Trace_HydSet", ["H_OneParent", "H_NoHH", "H_NoneAdded"], tf_, constants={"MinSep": 500}, timeout=1800)
+        ctx.add_tlc(res_, "hydrogen sets of runs that keep the program's own hydrogens")
+        ctx.traces += len(kept_sets)
+        for inv, idxs in sorted(hv.items()):
+            for i_ in idxs[:2]:
+                m_ = kept_sets[i_][1]
+                ctx.violation(f"keep-protons:{inv}:{m_['input']}", f"{inv} violated by the kept hydrogens of {m_['input']}",
+                              {"pdb": m_["pdb"], "optargs": ["-k"]})
     # --protonate-all on every ligand group type (synthetic ligand kit next to a real fragment)
     from .. import runbank
     for name, text, _o in runbank.kit_cases(ctx, every=1 if ctx.thorough() else 9):
